@@ -11,6 +11,8 @@ CONSTANTS
   MaxDepth = 3
   CellMask = FALSE
   CopyClear = FALSE
+  Grow = 0
+  GrowDepth = 1
   DataCopyDepth = 0
   Valueless = TRUE
   Deviations = {"ValuelessChildBreaksRemoval"}
